@@ -117,6 +117,20 @@ theorem C01_rrl_tcp_exempt (cfg : Cfg) (hcfg : CfgWF cfg) (now bufLen : Nat) (re
       handleMessageRrl cfg .tcp now bufLen req rs rrl src tnow rnd = .ok (resp, rrl) :=
   handleMessageRrl_tcp Writer.writerSafe cfg hcfg now bufLen req henv rs rrl hv src tnow rnd
 
+/-- **every sequence of requests**: one server with RRL enabled, started with any valid parameter
+    set (`Rrl::new`: every bucket holds the dummy key), handles any sequence of messages — any
+    sources, transports, instants, `RandomState` — without panicking, and produces one result
+    (response or none) per message. `serveAll` threads the table, the only state that survives a
+    call, through `handleMessageRrl`. -/
+theorem C01_rrl_every_sequence (cfg : Cfg) (hcfg : CfgWF cfg) (rs : Rrl.RandomState) (params : Rrl.RrlParams)
+    (hv : params.Valid) (t0 : Nat) (arrivals : List Arrival)
+    (henv : ∀ a ∈ arrivals, EnvOK cfg a.tr a.now a.bufLen a.req) :
+    ∃ resps rrl', serveAll cfg rs (Rrl.Rrl.new params t0) arrivals = .ok (resps, rrl') ∧
+      resps.length = arrivals.length := by
+  obtain ⟨resps, rrl', h, hl, _⟩ := serveAll_no_panic Writer.writerSafe cfg hcfg rs arrivals henv
+    (Rrl.Rrl.new params t0) hv
+  exact ⟨resps, rrl', h, hl⟩
+
 /-! ### L1 — the scan phase -/
 
 /-- `handle_message_with_context` never panics from a fresh writer, given only that the QUERY
